@@ -23,3 +23,63 @@ Theorem C19_batched_eq : forall (f : list Z -> Z) batch_size states, 1 <= batch_
   predictor_call (map f) batch_size states = map f states.
 Proof. exact batched_eq. Qed.
 Print Assumptions C19_batched_eq.
+
+From V Require Import Base Perm PermProofs Predictor PredictorProofs PredictorFull.
+
+(* for ANY score type (fractions, tuples) and any row-wise scorer, splitting the states into batches of any size >= 1 gives the same values in the same order *)
+Theorem C19_batched_eq_any :
+  forall (S A : Type) (f : list S -> list A) (batch_size : Z) (states : list S),
+         row_wise f -> 1 <= batch_size -> predictor_call_gen f batch_size states = f states.
+Proof. exact @batched_eq_any. Qed.
+Print Assumptions C19_batched_eq_any.
+
+(* row-wise = determined state by state *)
+Theorem C19_row_wise_iff :
+  forall (S A : Type) (f : list S -> list A),
+         row_wise f <-> (forall l : list S, f l = flat_map (fun x : S => f [x]) l).
+Proof. exact @row_wise_iff. Qed.
+Print Assumptions C19_row_wise_iff.
+
+(* 0 <= hamming <= number of positions *)
+Theorem C19_hamming_bounds :
+  forall c s : list Z, 0 <= hamming c s <= Z.of_nat (length c).
+Proof. exact @hamming_bounds. Qed.
+Print Assumptions C19_hamming_bounds.
+
+(* the Hamming heuristic is a metric: triangle inequality *)
+Theorem C19_hamming_triangle :
+  forall a b c : list Z,
+         length a = length b -> length b = length c -> hamming a c <= hamming a b + hamming b c.
+Proof. exact @hamming_triangle. Qed.
+Print Assumptions C19_hamming_triangle.
+
+(* symmetry *)
+Theorem C19_hamming_sym :
+  forall c s : list Z, hamming c s = hamming s c.
+Proof. exact @hamming_sym. Qed.
+Print Assumptions C19_hamming_sym.
+
+(* matrix-shaped states (flattened row-major): 0 exactly for the central state *)
+Theorem C19_hamming_matrix_zero_iff :
+  forall (n m : nat) (C M : list (list Z)),
+         shape n m C -> shape n m M -> hamming_matrix C M = 0 <-> M = C.
+Proof. exact @hamming_matrix_zero_iff. Qed.
+Print Assumptions C19_hamming_matrix_zero_iff.
+
+(* relabelling the positions of both states by a permutation does not change the score *)
+Theorem C19_hamming_perm_invariant :
+  forall (d : Z) (p : list nat) (c s : list Z),
+         Perm p ->
+         length c = length p ->
+         length s = length p -> hamming (apply_perm d p c) (apply_perm d p s) = hamming c s.
+Proof. exact @hamming_perm_invariant. Qed.
+Print Assumptions C19_hamming_perm_invariant.
+
+(* a generator that moves k positions changes the score by at most k *)
+Theorem C19_hamming_neighbor_lipschitz :
+  forall (d : Z) (p : list nat) (c s : list Z),
+         length c = length p ->
+         length s = length p ->
+         Z.abs (hamming c (apply_perm d p s) - hamming c s) <= Z.of_nat (support_size p).
+Proof. exact @hamming_neighbor_lipschitz. Qed.
+Print Assumptions C19_hamming_neighbor_lipschitz.
